@@ -234,14 +234,14 @@ class Check(c06.Check):
                  'and ALL schedules (C07_moved_once): if R imports x from D by name (plain or renamed, absolute or relative) and lists '
                  'it in __all__, D does not list it and has no from-imports, nothing else re-exports, then the final registry is exactly '
                  'the static one with x and everything below it under R.n, D.contents lacks x, R.contents has n, D keeps the alias '
-                 'x -> R.n; the same for the star-import form `from D import *` + __all__ when D only defines things (C07_moved_once_star). PROVED for ALL schedules, no hypothesis on the state (C07_reach_via_reexporter, C07_reach_via_module_alias): '
+                 'x -> R.n; the same for the star-import form `from D import *` + __all__ when D only defines things (C07_moved_once_star). PROVED for ALL schedules, no hypothesis on the state (C07_reach_via_reexporter, C07_reach_via_module_alias and their _star forms): '
                  'a third module whose import statements bind a name to R.n, or a name to the module D, reaches the moved object in the '
-                 'final state -- expandName, resolveName (base classes), link_to. State level only: find_object by the old name '
-                 '(C07_find_object_old_name_partial). REFUTED (known finding): the reference through `from <defining module> '
+                 'final state -- expandName, resolveName (base classes), link_to; find_object by the old qualified name returns it too '
+                 '(C07_find_object_old_name). REFUTED (known finding): the reference through `from <defining module> '
                  'import <name>` (C07_reach_via_defining_module_refuted). Tie: per-schedule model/implementation diff incl. resolveName / '
                  'link_to / xref / find_object answers on the whole re-export matrix under every schedule; oracle on the real tool.'),
-        'note': ('Partial: defining modules with imports of their own, several re-exports per project and consumers of a star-form '
-                 're-export are covered by the correspondence check and the oracle only. Three genuine defects recorded as known findings.'),
+        'note': ('Partial: defining modules with imports of their own, several re-exports per project and consumers with star imports / '
+                 'assignment aliases are covered by the correspondence check and the oracle only. Three genuine defects recorded as known findings.'),
         'technique': 'Coq proof (step invariants of an explicit-stack machine, two-phase invariant around reparent, consumer alias-map invariant) + exhaustive-schedule correspondence',
     }
 
